@@ -737,10 +737,71 @@ fn measure_units(mode: &str, map: &Beatmap, diff: &Difficulty) -> Option<Measure
 struct Rec {
     lines: Vec<String>,
     sessions: u64,
+    /// harness-side differential on the recorded maps: i-th gradual value vs one-shot on the prefix (C02), i-th gradual
+    /// performance - created from a Difficulty that still carries a stale passed_objects - vs one-shot performance (C03)
+    value_mism: Vec<Value>,
+    value_checks: u64,
+}
+
+fn value_checks(rec: &mut Rec, map: &Beatmap, diff: &rosu_pp::Difficulty, label: &str) {
+    let total = GradualDifficulty::new(diff.clone(), map).len();
+    if total == 0 {
+        return;
+    }
+    let mut idxs: Vec<usize> = if total <= 16 { (0..total).collect() } else { (0..12).map(|k| k * (total - 1) / 11).collect() };
+    if total > 2 {
+        idxs.push(total - 2);
+    }
+    idxs.sort_unstable();
+    idxs.dedup();
+    let want_len = idxs.len();
+    let r = guarded(|| {
+        let mut out = Vec::new();
+        let mut g = GradualDifficulty::new(diff.clone(), map);
+        let state = score_state(1);
+        // the Difficulty handed to the gradual performance calculator still carries a passed_objects value from an earlier use
+        // (one less than the number of steps); whether a calculator honours or ignores it, the steps up to that value are the
+        // prefixes of the same play, so only those are compared
+        let stale = (total as u32).saturating_sub(1).max(1);
+        let mut gp = GradualPerformance::new(diff.clone().passed_objects(stale), map);
+        let (mut at, mut pat) = (0usize, 0usize);
+        for &i in &idxs {
+            let gv = g.nth(i - at).map(|a| dbg_attrs(&a));
+            at = i + 1;
+            let ov = dbg_attrs(&diff.clone().passed_objects(i as u32 + 1).calculate(map));
+            let (pv, opv) = if (i as u32) < stale {
+                let pv = gp.nth(state.clone(), i - pat).map(|a| dbg_perf(&a));
+                pat = i + 1;
+                (pv, dbg_perf(&Performance::new(map).difficulty(diff.clone().passed_objects(i as u32 + 1)).state(state.clone()).calculate()))
+            } else {
+                (Some(String::new()), String::new())
+            };
+            out.push((i, gv, ov, pv, opv));
+        }
+        out
+    });
+    match r {
+        Err(p) => rec.value_mism.push(json!({"api": "diff", "label": label, "what": "panic", "observed": p})),
+        Ok(rows) => {
+            if rows.len() != want_len {
+                rec.value_mism.push(json!({"api": "diff", "label": label, "what": "machinery", "observed": rows.len()}));
+            }
+            for (i, gv, ov, pv, opv) in rows {
+                rec.value_checks += 2;
+                if gv.as_deref() != Some(ov.as_str()) {
+                    rec.value_mism.push(json!({"api": "diff", "label": label, "what": "value", "i": i + 1, "expected": ov.chars().take(400).collect::<String>(), "observed": format!("{gv:?}").chars().take(400).collect::<String>()}));
+                }
+                if pv.as_deref() != Some(opv.as_str()) {
+                    rec.value_mism.push(json!({"api": "perf", "label": label, "what": "value", "i": i + 1, "expected": opv.chars().take(400).collect::<String>(), "observed": format!("{pv:?}").chars().take(400).collect::<String>()}));
+                }
+            }
+        }
+    }
 }
 
 fn record_sessions(rec: &mut Rec, rng: &mut StdRng, mode: &str, map: &Beatmap, cfg: &Cfg, label: &str) {
     let diff = cfg.difficulty();
+    value_checks(rec, map, &diff, label);
     let Some(Measured { units, zero, above_ok }) = measure_units(mode, map, &diff) else {
         rec.lines.push(json!({"ev": "reset", "api": "diff", "mode": mode, "units": [], "len": -7, "label": format!("{label}: one-shot counts not monotone or panicked")}).to_string());
         return;
@@ -827,7 +888,7 @@ pub fn record_main(args: &[String]) -> i32 {
     let seed: u64 = std::env::var("VERIF_SEED").ok().and_then(|s| s.parse().ok()).unwrap_or(0);
     silence_panics();
     let mut rng = StdRng::seed_from_u64(seed ^ 0x6772_6164);
-    let mut rec = Rec { lines: Vec::new(), sessions: 0 };
+    let mut rec = Rec { lines: Vec::new(), sessions: 0, value_mism: Vec::new(), value_checks: 0 };
     let all_cfgs = cfgs(&tier);
     let (fix_trunc, n_random, max_len) = if tier == "thorough" { (400, 40, 60) } else { (80, 8, 30) };
     let fixtures = [("osu", "2785319"), ("taiko", "1028484"), ("catch", "2118524"), ("mania", "1638954")];
@@ -950,6 +1011,7 @@ pub fn record_main(args: &[String]) -> i32 {
         }
     }
     std::fs::write(out_path, rec.lines.join("\n") + "\n").unwrap();
-    println!("gradual-record: maps={} sessions={} events={}", maps_used, rec.sessions, rec.lines.len());
+    std::fs::write(format!("{out_path}.values.json"), serde_json::to_string_pretty(&json!({"checks": rec.value_checks, "mismatches": rec.value_mism.len(), "records": rec.value_mism.iter().take(30).collect::<Vec<_>>()})).unwrap()).unwrap();
+    println!("gradual-record: maps={} sessions={} events={} value_checks={} value_mismatches={}", maps_used, rec.sessions, rec.lines.len(), rec.value_checks, rec.value_mism.len());
     0
 }
